@@ -685,6 +685,49 @@ fn check_predict(ctx: &mut Ctx, c: &TCase, one: bool) -> R {
             c.p, show(&c.x), s.mean.f(), fit.phi, j + 1, h, f[j], want[j].f(), diff, tol[j]
         );
     }
+    // The same model forecasting from a history other than its training series (a recent window whose own mean
+    // differs from the series mean): "the mean" of the statement is the fitted series mean (the intercept), so the
+    // forecasts are intercept + recursion on (history − intercept) — the window's own mean plays no role.
+    let w = (c.x.len() / 3).max(c.p);
+    if w < c.x.len() {
+        let sd = (s.dx.iter().map(|v| v.f() * v.f()).sum::<f64>() / s.n as f64).sqrt();
+        let hist: Vec<f64> = c.x[c.x.len() - w..].iter().enumerate().map(|(i, v)| v + 0.5 * (1.0 + (i % 3) as f64) * sd).collect();
+        let hh = h.min(50);
+        let got = catch(|| {
+            let mut ar = ts::AR::new(c.p);
+            ar.fit(&c.x);
+            (ar.predict(&hist, hh), ar.predict_one(&hist))
+        });
+        let (fw, p1w) = match got {
+            Ok(v) => v,
+            Err(m) => return fail(format!("{}/panic", sig), format!("AR({}) fitted to x={}: predict from a window of {} values panicked: {}", c.p, show(&c.x), w, m)),
+        };
+        let cw: Vec<DD> = hist[w - c.p..].iter().map(|v| DD::new(*v) - DD::new(fit.intercept)).collect();
+        let cmax = cw.iter().fold(0.0f64, |a, v| a.max(v.f().abs()));
+        let d = recursion(&fit.phi, &cw, hh);
+        let g = growth(&fit.phi, hh);
+        let base = 1e-9 * (1.0 + fit.intercept.abs() + cmax);
+        ensure!(fw.len() == hh, format!("{}/length", sig), "predict(window, {}) returned {} forecasts", hh, fw.len());
+        for j in 0..hh {
+            let want = (d[j] + DD::new(fit.intercept)).f();
+            let tol = base * g[j];
+            if !want.is_finite() || !tol.is_finite() {
+                break;
+            }
+            let diff = (fw[j] - want).abs();
+            ctx.worst("predict from another history |got-ref|/tol", ratio(diff, tol));
+            ensure!(
+                diff <= tol,
+                format!("{}/other-history", sig),
+                "AR({}) fitted to x={} (intercept {:e}, φ={:?}) forecasting from the window {}: forecast {} = {:e}, intercept + recursion on (window − intercept) = {:e} (difference {:e}, allowance {:e})",
+                c.p, show(&c.x), fit.intercept, fit.phi, show(&hist), j + 1, fw[j], want, diff, tol
+            );
+            if j == 0 {
+                let d1 = (p1w - want).abs();
+                ensure!(d1 <= tol, format!("{}/other-history", sig), "predict_one(window) = {:e}, expected {:e} (difference {:e}, allowance {:e})", p1w, want, d1, tol);
+            }
+        }
+    }
     Ok(())
 }
 
